@@ -231,6 +231,92 @@ theorem shift_compound (la : Loc) (par : PKey) (hc : la.Canon) (k : Int) :
           sort_plus_sort, beq_self_eq_true, Bool.and_true]
         exact hres (fun m h => by rw [hn] at h; cases h; exact h2)
 
+/-! ### reverse -/
+
+theorem reverse_single (b : Blk) (st : Strand) (par : PKey) (hb : b.1 ≤ b.2)
+    (hbd : ∀ n, parentSeqLen par = some n → b.2 ≤ n) :
+    okReverse (.single b st, par) (ans (reverseP (.single b st, par))) = true := by
+  simp only [reverseP]
+  rw [mkSingleP_ok b _ par hb hbd]
+  simp only [ans_ok, okReverse, spanOf_single, locationStrand?, locationBlocks, flip_eq, Option.map_some,
+    beq_self_eq_true, Bool.and_true, Bool.and_eq_true]
+  refine ⟨⟨?_, ?_⟩, ?_⟩
+  · exact resultOk_mk _ par (by simp) (by simpa [wfLocation] using hb)
+      (fun n hn x hx => by simp only [locationBlocks, List.mem_singleton] at hx; subst hx; exact hbd n hn)
+  · simp [endsWithin, locationBlocks]
+  · rw [allUpTo_iff]
+    intro p _
+    simp only [locationCovers, coversBlocks, List.any_cons, List.any_nil, Bool.or_false, beq_iff_eq]
+    rw [Bool.eq_iff_iff]
+    simp only [Bool.and_eq_true, decide_eq_true_eq]
+    omega
+
+theorem reverse_compound (la : Loc) (par : PKey) (hc : la.Canon)
+    (hbd : ∀ n, parentSeqLen par = some n → ∀ b ∈ la.blocks, b.2 ≤ n) :
+    okReverse (.compound la, par) (ans (reverseP (.compound la, par))) = true := by
+  obtain ⟨f, rest, hbl, hspan, _⟩ := spanOf_compound la hc
+  have hv := canon_valid la hc
+  have hsorted : sortedBy (blkLe la.strand) (f :: rest) = true := by rw [← hbl]; exact hc.2.2
+  have hmin : ∀ x ∈ la.blocks, f.1 ≤ x.1 := by
+    intro x hx
+    rw [hbl] at hx
+    rcases List.mem_cons.mp hx with rfl | hx
+    · exact Nat.le_refl _
+    · exact sortedBy_head_le la.strand f rest hsorted x hx
+  have hmax : ∀ x ∈ la.blocks, x.2 ≤ maxEnd la.blocks := by
+    intro x hx; rw [← maxEndOf_eq_maxEnd]; exact le_maxEndOf_of_mem _ x hx
+  have hs : locStart (.compound la) = .ok f.1 := by simp [locStart, hbl]; rfl
+  have he : locEnd (.compound la) = .ok (maxEnd la.blocks) := by simp [locEnd, hbl]; rfl
+  simp only [reverseP, hs, he, ok_bind]
+  generalize hS : f.1 = S at *
+  generalize hE : maxEnd la.blocks = E at *
+  have hne' : la.blocks.map (fun b : Blk => (S + E - b.2, S + E - b.1)) ≠ [] := by simp [hbl]
+  have hv' : ∀ b ∈ la.blocks.map (fun b : Blk => (S + E - b.2, S + E - b.1)), b.1 ≤ b.2 := by
+    intro b hb
+    obtain ⟨x, hx, rfl⟩ := List.mem_map.mp hb
+    have := hv x hx
+    simp only; omega
+  have hE' : ∀ b ∈ la.blocks.map (fun b : Blk => (S + E - b.2, S + E - b.1)), b.2 ≤ E := by
+    intro b hb
+    obtain ⟨x, hx, rfl⟩ := List.mem_map.mp hb
+    have := hmin x hx
+    simp only; omega
+  have hEn : ∀ n, parentSeqLen par = some n → E ≤ n := by
+    intro n hn
+    obtain ⟨b, hb, hbe⟩ := maxEndOf_mem la.blocks hc.1
+    have := hbd n hn b hb
+    rw [maxEndOf_eq_maxEnd, hE] at hbe
+    omega
+  rw [mkCompoundP_ok _ _ par hne' hv' (fun n hn b hb => Nat.le_trans (hE' b hb) (hEn n hn))]
+  simp only [ans_ok, okReverse, hspan, locationStrand?, locationBlocks, flip_eq, Option.map_some,
+    beq_self_eq_true, Bool.and_true, Bool.and_eq_true]
+  refine ⟨⟨⟨?_, ?_⟩, ?_⟩, ?_⟩
+  · refine resultOk_mk _ par (by simp) (wf_compound_sort _ _ hne' hv') ?_
+    intro n hn b hb
+    exact Nat.le_trans (hE' b ((sortBlocks_perm _ _).mem_iff.mp hb)) (hEn n hn)
+  · simp only [endsWithin, locationBlocks, List.all_eq_true, decide_eq_true_eq]
+    intro b hb
+    exact hE' b ((sortBlocks_perm _ _).mem_iff.mp hb)
+  · rw [allUpTo_iff]
+    intro p _
+    simp only [locationCovers, covers, coversBlocks_sort, beq_iff_eq]
+    rw [Bool.eq_iff_iff]
+    simp only [Bool.and_eq_true, decide_eq_true_eq, coversBlocks_iff]
+    constructor
+    · rintro ⟨b, hb, h1, h2⟩
+      obtain ⟨x, hx, rfl⟩ := List.mem_map.mp hb
+      have := hmin x hx
+      have := hmax x hx
+      have := hv x hx
+      simp only at h1 h2
+      exact ⟨⟨by omega, by omega⟩, x, hx, by omega, by omega⟩
+    · rintro ⟨⟨h1, h2⟩, x, hx, h3, h4⟩
+      have := hmin x hx
+      have := hmax x hx
+      have := hv x hx
+      exact ⟨_, List.mem_map.mpr ⟨x, hx, rfl⟩, by simp only; omega, by simp only; omega⟩
+  · simp [(sortBlocks_perm _ _).length_eq]
+
 end BioCantor.Proofs.Misc
 
 namespace BioCantor.Proofs
@@ -287,5 +373,13 @@ theorem shiftP_ok (a : PLoc) (ha : WFP a) (k : Int) : okShift a k (ans (shiftP a
   | empty => simp [shiftP, okShift, spanOf, locationBlocks]
   | single b st => exact shift_single b st par hwf k
   | compound la => exact shift_compound la par hwf k
+
+theorem reverseP_ok (a : PLoc) (ha : WFP a) : okReverse a (ans (reverseP a)) = true := by
+  obtain ⟨l, par⟩ := a
+  obtain ⟨hwf, hemp, hbd⟩ := ha
+  cases l with
+  | empty => simp [reverseP, okReverse, spanOf, locationBlocks]
+  | single b st => exact reverse_single b st par hwf (fun n hn => hbd n hn b (by simp [locationBlocks]))
+  | compound la => exact reverse_compound la par hwf (fun n hn => hbd n hn)
 
 end BioCantor.Proofs
